@@ -23,6 +23,9 @@ private theorem n6 : 6 % 2 ^ 64 = 6 := by decide
 private theorem ePage : Firefly.Gen.Pmm.pageSize = 4096 := by decide
 
 private theorem k4095 : (2^12 - 1) % 2^64 = 4095 := by decide
+private theorem kpsz : BitVec.ofNat 64 Firefly.Gen.Pmm.pageSize = 4096#64 := by decide
+private theorem e4096 : (4096#64 : BitVec 64).toNat = 4096 := by decide
+private theorem n4096 : 4096 % 2 ^ 64 = 4096 := by decide
 private theorem k63 : (2^6 - 1) % 2^64 = 63 := by decide
 private theorem e6 : (6#64 : BitVec 64).toNat = 6 := by decide
 private theorem e3 : (3#64 : BitVec 64).toNat = 3 := by decide
@@ -33,7 +36,7 @@ closes the goal. The same script proves the lemma for any *equivalent* way of wr
 expression (dropping a mask that the following shift makes redundant, `>> 12` vs `/ 4096`, …): a
 behaviour-preserving rewrite of the source does not break the tie, a changed rounding does. -/
 macro "tie_arith" : tactic => `(tactic| (
-  simp only [shift12, m4095, m63, BitVec.ushiftRight_eq', BitVec.shiftLeft_eq', BitVec.toNat_ofNat, n12, n3, n6,
+  simp only [shift12, kpsz, e4096, n4096, m4095, m63, BitVec.ushiftRight_eq', BitVec.shiftLeft_eq', BitVec.toNat_ofNat, n12, n3, n6,
     k4095, k63, e12, e6, e3, ePage, BitVec.toNat_ushiftRight, BitVec.toNat_shiftLeft, Nat.shiftLeft_eq,
     toNat_and_not_lowmask, BitVec.toNat_add, BitVec.toNat_sub, BitVec.toNat_mul, BitVec.toNat_udiv, BitVec.toNat_umod,
     Nat.shiftRight_eq_div_pow] <;> omega))
@@ -144,7 +147,8 @@ theorem tie_bitmapBytes (e s : BitVec 64) (h : s.toNat ≤ e.toNat) (hsm : e.toN
   have := e.isLt
   unfold setupBitmapBytes wordsFor; tie_arith
 
-theorem tie_requiredPages (b : BitVec 64) : (setupRequiredPages b).toNat = b.toNat / 4096 := by
+theorem tie_requiredPages (n sz bm : BitVec 64) (h : n.toNat * sz.toNat + bm.toNat + 4095 < 2^64) :
+    (setupRequiredPages n sz bm).toNat = (n.toNat * sz.toNat + bm.toNat + 4095) / 4096 := by
   unfold setupRequiredPages; tie_arith
 
 theorem tie_requiredBytes (n sz bm : BitVec 64) (h : n.toNat * sz.toNat + bm.toNat + 4095 < 2^64) :
